@@ -1,4 +1,5 @@
 """Registry of checks: property id -> function(out, tier, seed)."""
+import json
 from . import core
 
 
@@ -112,3 +113,98 @@ def check_c03(out, tier, seed):
 
 CHECKS["C03"] = check_c03
 LEVEL["C03"] = "model_checking"
+
+
+def check_c11(out, tier, seed):
+    """E-line cell table (exhaustive for segment length 3) in three arrival orders, after a
+    rename and after removing an unrelated line; L/C/G shapes; plus the core histories."""
+    from . import core as c, tlc
+    wd = tlc.workdir("cells")
+    cfg = ("SPECIFICATION Spec\nCONSTANT SLen = 3\nCONSTRAINT Emit\nINVARIANT SwapSym\nINVARIANT InvSym\n"
+           "INVARIANT Shape\nCHECK_DEADLOCK FALSE\n")
+    rc, o = tlc.run_tlc("MC_EdgeCells", cfg, wd, workers=4)
+    tlc.check_ok(rc, o, "MC_EdgeCells")
+    st = tlc.stats(o)
+    cells = sorted({json.dumps(tlc.tla_value(r)) for r in tlc.parse_tuples(o, "CELL")})
+    cells = [json.loads(x) for x in cells]
+    if len(cells) != 400:
+        raise tlc.MachineryError("expected 400 cells, got %d" % len(cells))
+
+    def p(v, last):
+        return "%d%s" % (v, "$" if last else "")
+    jobs = []
+    A = lambda t: dict(k="add", text=t, id="", id2="")
+    uni = ["a", "b", "c", "d", "e"]
+    n = 0
+    for cell in cells:
+        _, o1, o2, num, t, k1, k2 = cell
+        for second in ("b", "a"):
+            e = "E\te\ta%s\t%s%s\t%s\t%s\t%s\t%s\t*" % (o1, second, o2, p(num[0], num[1]), p(num[2], num[3]),
+                                                       p(num[4], num[5]), p(num[6], num[7]))
+            sa, sb, sc = "S\ta\t3\t*", "S\tb\t3\t*", "S\tc\t3\t*"
+            segs = [sa, sb] if second == "b" else [sa]
+            tail = [dict(k="ren", text="", id="a", id2="d"), A(sc), dict(k="rm", text="", id="c", id2=""),
+                    dict(k="rm", text="", id="e", id2="")]
+            orders = [segs + [e], [e] + segs, [segs[0], e] + segs[1:]]
+            if tier == "quick" and (n % 3):
+                orders = orders[n % 3: n % 3 + 1]     # quick: every cell, one of the orders each (rotating)
+            for od in orders:
+                jobs.append(dict(id="cell-%d" % n, kind="cell", cfg=dict(version="gfa2", vlevel=1),
+                                 ops=[A(x) for x in od] + tail, universe=uni))
+                n += 1
+    # L / C / G shapes: four orientation pairs x {distinct, self, parallel}
+    for o1 in "+-":
+        for o2 in "+-":
+            for second in ("B", "A"):
+                base = ["S\tA\t*", "S\tB\t*"]
+                l1 = "L\tA\t%s\t%s\t%s\t2M" % (o1, second, o2)
+                l2 = "L\tA\t%s\t%s\t%s\t3M" % (o1, second, o2)
+                cc = "C\tA\t%s\t%s\t%s\t0\t*" % (o1, second, o2)
+                for od in ([*base, l1, l2, cc], [l1, cc, *base, l2], [cc, l2, base[1], l1, base[0]]):
+                    jobs.append(dict(id="lc-%d" % n, kind="cell", cfg=dict(version="gfa1", vlevel=1),
+                                     ops=[A(x) for x in od] + [dict(k="ren", text="", id="A", id2="D")],
+                                     universe=["A", "B", "D"]))
+                    n += 1
+                sec = second.lower()
+                g1 = "G\tg1\ta%s\t%s%s\t5\t*" % (o1, sec, o2)
+                g2 = "G\t*\ta%s\t%s%s\t7\t1" % (o1, sec, o2)
+                b2 = ["S\ta\t3\t*", "S\tb\t3\t*"]
+                for od in ([*b2, g1, g2], [g1, *b2, g2], [g2, b2[1], g1, b2[0]]):
+                    jobs.append(dict(id="g-%d" % n, kind="cell", cfg=dict(version="gfa2", vlevel=1),
+                                     ops=[A(x) for x in od] + [dict(k="ren", text="", id="a", id2="d")],
+                                     universe=["a", "b", "d", "g1"]))
+                    n += 1
+    traces = c.replay_all(jobs)
+    r = c.validate(traces, "val-C11")
+    by_id = r["by_id"]
+    for tid, ev, clauses, phase in r["rejects"]:
+        t = by_id[tid]
+        props = c.attribute(clauses, "cell")
+        if "C11" in props:
+            out.violations.append(dict(family="core", clauses=[x for x in clauses if c.CLAUSE_PROP.get(x) == "C11"],
+                                       all_clauses=clauses, event=ev, trace=tid, cfg=t["cfg"], ops=t["src"][:ev],
+                                       what="clauses %s at call %d" % (",".join(clauses), ev)))
+        for pp in props - {"C11"}:
+            out.others[pp] = out.others.get(pp, 0) + 1
+    out.add_cov(states=st[1] + r["states"], transitions=st[0] + r["states"], spec_cells=len(cells),
+                traces_validated_against_impl=len(traces), events_validated=r["states"],
+                evaluations=len(traces), distinct_nontrivial=len(traces), exhaustive=(tier != "quick"),
+                rule="all 400 cells (2x2 orientations x 10x10 intervals of a length-3 segment incl. empty, "
+                     "prefix, suffix, inner, whole) as an edge between distinct segments and as a self-edge, "
+                     "each loaded in three arrival orders (quick: one rotating order per cell), then rename, "
+                     "unrelated removal, removal of the edge; L/C/G lines in all four orientation pairs x "
+                     "{distinct, self, parallel} x three orders")
+    for t in traces[:2] + traces[-2:]:
+        out.samples.append({"trace": t["id"], "calls": [[o["k"], o["text"] or [o["id"], o["id2"]], e["res"]]
+                                                        for o, e in zip(t["src"], t["ev"])]})
+    # the key clauses are also evaluated on every trace of the core histories
+    jobs2 = {}
+    for cat in ("gfa1", "gfa2"):
+        jobs2["doc-" + cat] = c.doc_jobs(cat, 100 if tier == "quick" else 2000, 4, seed)
+    c.run_pipeline(out, jobs2, [("gfa2s", 3)] if tier == "quick" else [("gfa2s", 4), ("gfa1s", 4)], "C11")
+    out.assumptions += ["TLC; spec/EdgeClass.tla is my independent reading of the GFA2 text",
+                        "segment length 3 stands for every length (interval kinds depend only on 0 / inner / last)"]
+
+
+CHECKS["C11"] = check_c11
+LEVEL["C11"] = "model_checking"
